@@ -305,7 +305,16 @@ func storeCase(caseID string, seed int64, idx int, dir string) {
 			}
 			if err := d2.Store.RestoreShard(d2.ShardID, bytes.NewReader(ebuf.Bytes())); err != nil {
 				d2.Close()
-				fail("C18/restore-error/export", "RestoreShard failed on an export: "+err.Error())
+				var entries []string
+				tr := tar.NewReader(bytes.NewReader(ebuf.Bytes()))
+				for {
+					hdr, terr := tr.Next()
+					if terr != nil {
+						break
+					}
+					entries = append(entries, fmt.Sprintf("%s(%dB)", hdr.Name, hdr.Size))
+				}
+				fail("C18/restore-error/export", fmt.Sprintf("RestoreShard failed on an export of [%d,%d] (archive entries %v): %s", a, b, entries, err.Error()))
 				return
 			}
 			_, mmIn, errIn := tr.CheckRange(d2, a, b, false)
